@@ -162,6 +162,23 @@ fn tcb_replay(a: &Args) {
                     e
                 })
                 .collect();
+            // A reset sent from the CLOSED state carries the LITERAL sequence number 0 (RFC 9293 3.10.7.1): where
+            // that lands in the receiver's window depends on the ISNs by design.  Behaviours are compared up to the
+            // first emission of such a segment.
+            let literal0 = |evs: &Vec<Value>| -> usize {
+                evs.iter()
+                    .position(|e| {
+                        // (the answer of a closed endpoint is the `resp` of the arrival that provoked it)
+                        let r = &e["resp"];
+                        r.is_object() && r["ctl"].as_u64().unwrap_or(0) & 0x14 == 0x14 && r["seq"] == 0 && r["off"] == -1
+                    })
+                    .map(|k| k + 1)
+                    .unwrap_or(usize::MAX)
+            };
+            let norm: Vec<Value> = {
+                let cut = literal0(&norm);
+                norm.into_iter().take(cut).collect()
+            };
             match &first {
                 None => first = Some(norm),
                 Some(f) => {
